@@ -282,4 +282,42 @@ static size_t defgen(defgen_t *g, vrng *r, uint8_t *buf, size_t cap, uint8_t *ex
 	if (fault && !g->fault_done) return 0;
 	return (g->bits + 7) / 8;
 }
+/* A stream whose last block carries a dynamic header close to the longest one RFC 1951 allows (about 283 of the possible 285.75 bytes): all 286 + 30
+ * code lengths present and written without run-length symbols, and a code-length code in which the two lengths that occur 283 times cost 7 bits each.
+ * Preceded by a short stored block; the first token of the big block is a match that reaches back to the very first output byte, so that anything a
+ * decoder damages while it buffers the header across calls (its own history included) shows in the output.  Returns the stream length in bytes. */
+static size_t dg_maxhdr_stream(defgen_t *g, vrng *r, uint8_t *buf, size_t cap, uint8_t *exp, size_t max_out)
+{
+	memset(g, 0, sizeof *g); g->buf = buf; g->cap = cap; g->exp = exp; g->max_out = max_out; memset(buf, 0, cap < 70000 ? cap : 70000);
+	int pre = 1 + (int) vrn(r, vrn(r, 2) ? 100 : 3000);
+	dg_pb(g, 0, 1); dg_pb(g, 0, 2); g->bits = (g->bits + 7) & ~(size_t) 7; dg_pb(g, (uint32_t) pre, 16); dg_pb(g, ~(uint32_t) pre & 0xffff, 16);
+	for (int i = 0; i < pre; i++) { uint8_t v = (uint8_t) vr32(r); dg_pb(g, v, 8); g->exp[g->explen++] = v; }
+	g->nblocks = 2; g->nstored = 1; g->ndyn = 1;
+	/* lit/len: 1 x 7, 224 x 8, 59 x 9, 2 x 10 bits (Kraft sum exactly 1); distance: 1..6 once each, 8 x 10, 16 x 11 bits (exactly 1) */
+	uint8_t ll[288] = { 0 }, dl[32] = { 0 }; uint16_t lc[288] = { 0 }, dc[32] = { 0 }; int k = 0;
+	ll[k++] = 7; for (int i = 0; i < 224; i++) ll[k++] = 8; for (int i = 0; i < 59; i++) ll[k++] = 9; ll[k++] = 10; ll[k++] = 10;
+	for (int i = 285; i > 0; i--) { int j = (int) vrn(r, (uint32_t) i + 1); uint8_t t = ll[i]; ll[i] = ll[j]; ll[j] = t; }
+	k = 0; for (int i = 1; i <= 6; i++) dl[k++] = (uint8_t) i; for (int i = 0; i < 8; i++) dl[k++] = 10; for (int i = 0; i < 16; i++) dl[k++] = 11;
+	for (int i = 29; i > 0; i--) { int j = (int) vrn(r, (uint32_t) i + 1); uint8_t t = dl[i]; dl[i] = dl[j]; dl[j] = t; }
+	dg_canon(ll, 288, lc); dg_canon(dl, 32, dc);
+	/* code-length code: lengths 1..4 cost 1..4 bits, 5 costs 6, and 6 7 8 9 10 11 cost 7 bits each (Kraft: 64+32+16+8+2+6 = 128/128) */
+	uint8_t cll[19] = { 0 }; uint16_t clc[19] = { 0 }; cll[1] = 1; cll[2] = 2; cll[3] = 3; cll[4] = 4; cll[5] = 6; for (int i = 6; i <= 11; i++) cll[i] = 7;
+	dg_canon(cll, 19, clc);
+	static const uint8_t ord[19] = {16,17,18,0,8,7,9,6,10,5,11,4,12,3,13,2,14,1,15};
+	size_t hdr_start = g->bits;
+	dg_pb(g, 1, 1); dg_pb(g, 2, 2); dg_pb(g, 29, 5); dg_pb(g, 29, 5); dg_pb(g, 18 - 4, 4);
+	for (int i = 0; i < 18; i++) dg_pb(g, cll[ord[i]], 3);
+	for (int i = 0; i < 286; i++) dg_pcode(g, clc[ll[i]], cll[ll[i]]);
+	for (int i = 0; i < 30; i++) dg_pcode(g, clc[dl[i]], cll[dl[i]]);
+	g->fault_bit = g->bits - hdr_start;    /* reused as: header length in bits */
+	/* first token: a match reaching the first output byte (length symbol 257 + n, distance = everything produced so far) */
+	{ int ls = (int) vrn(r, 29), ds = 0; uint32_t len = DG_LB[ls], dist = (uint32_t) g->explen; if (len > 258) len = 258;
+	  for (int c = 0; c < 30; c++) if (DG_DB[c] <= dist) ds = c;
+	  uint32_t dx = dist - DG_DB[ds]; if (dx >= (1u << DG_DX[ds])) { dx = (1u << DG_DX[ds]) - 1; dist = DG_DB[ds] + dx; }
+	  dg_pcode(g, lc[257 + ls], ll[257 + ls]); dg_pb(g, 0, DG_LX[ls]); dg_pcode(g, dc[ds], dl[ds]); dg_pb(g, dx, DG_DX[ds]);
+	  for (uint32_t i = 0; i < len; i++) { g->exp[g->explen] = g->exp[g->explen - dist]; g->explen++; } g->ntok++; }
+	dg_tokens(g, r, ll, lc, dl, dc, (int) vrn(r, 400));
+	dg_pcode(g, lc[256], ll[256]);
+	return (g->bits + 7) / 8;
+}
 #endif
